@@ -214,7 +214,73 @@ def _numbered(lines):
     return '\n'.join('{:3d} {}'.format(i + 1, ln) for i, ln in enumerate(lines))
 
 
+ZERO_ARG_EXC = ['KeyError', 'ValueError', 'ZeroDivisionError', 'RuntimeError', 'AssertionError']
+
+
+def check_zero_arg_case(case, ctx):
+    """the native runner also runs functions without arguments and without doctests when they are named ('zero-arg' mode): a
+    function that raises is a failed example like any other - recorded, rendered, the run returns its summary"""
+    import xdoctest
+    exc = ZERO_ARG_EXC[case['exc'] % len(ZERO_ARG_EXC)]
+    verbose = case.get('verbose', 0)
+    n_funcs = case.get('n_funcs', 1)
+    lines = ['import os', '', '']
+    for i in range(n_funcs):
+        lines += ['def zfunc{}():'.format(i), '    x = {}'.format(i), "    raise {}('zero arg {}')".format(exc, i), '', '']
+    if case.get('with_doctest'):
+        lines += ['def documented(a=1):', '    \"\"\"', '    Example:', "        >>> print('fine')", '        fine', '    \"\"\"', '', '']
+    name = sandbox.unique_name('vpc09z')
+    command = 'zfunc0' if not case.get('zero_all') else 'zero-all'
+    with sandbox.scratch('c09z') as d:
+        path = os.path.join(d, name + '.py')
+        with open(path, 'w') as f:
+            f.write('\n'.join(lines) + '\n')
+        raised, rs = None, None
+        try:
+            with sandbox.quiet() as (out, err, wl):
+                try:
+                    rs = xdoctest.doctest_module(path, command=command, argv=[], verbose=verbose)
+                except BaseException as ex:   # noqa
+                    raised = ex
+            text = out.getvalue()
+        finally:
+            sandbox.purge_modules([name])
+    if ctx is not None:
+        ctx.count()
+        ctx.tag('zero_arg', 'zero_arg:' + command, 'verbose:{}'.format(verbose))
+        ctx.nontriv(('zero', exc, verbose, n_funcs, command, bool(case.get('with_doctest'))), None)
+    where = 'command={!r} verbose={}\n{}'.format(command, verbose, '\n'.join(lines))
+    if raised is not None:
+        raise Violation('zero_arg:run_raises:' + type(raised).__name__, 'doctest_module raised {!r} instead of returning a summary\n{}'.format(raised, where))
+    exp_failed = 1 if command == 'zfunc0' else n_funcs
+    if rs['n_failed'] != exp_failed or len(rs['failed']) != exp_failed:
+        raise Violation('zero_arg:tally', 'n_failed = {} failed = {} expected {}\n{}'.format(
+            rs['n_failed'], [e.callname for e in rs['failed']], exp_failed, where))
+    for e in rs['failed']:
+        if e.exc_info is None or e.exc_info[0].__name__ != exc:
+            raise Violation('zero_arg:exc_info', 'the failed example {} carries {!r} expected {}\n{}'.format(e.callname, e.exc_info, exc, where))
+        with sandbox.quiet():
+            rep = '\n'.join(e.repr_failure())
+        if exc not in rep or 'zero arg' not in rep:
+            raise Violation('zero_arg:report', 'the report of {} does not name the exception:\n{}\n{}'.format(e.callname, rep[-800:], where))
+    if verbose >= 2 and exc not in text:
+        raise Violation('zero_arg:printed', 'nothing about the {} is printed at verbose={}\n{}\n{}'.format(exc, verbose, text[-600:], where))
+    if verbose == 1 and 'zfunc0' not in text:
+        raise Violation('zero_arg:printed', 'the failed example is not named at verbose=1\n{}\n{}'.format(text[-600:], where))
+
+
+def zero_arg(ctx):
+    for exc in range(len(ZERO_ARG_EXC)):
+        for verbose in (0, 1, 2, 3):
+            for n_funcs, zero_all, with_doctest in ((1, False, False), (1, True, False), (3, True, False), (2, False, True), (1, False, True)):
+                ctx.guard(check_case, {'zero_arg': True, 'exc': exc, 'verbose': verbose, 'n_funcs': n_funcs, 'zero_all': zero_all,
+                                       'with_doctest': with_doctest})
+    ctx.exhaustive.append('zero-arg functions: exception (5) x verbosity (4) x (one named / zero-all with 1 or 3 / next to a documented function)')
+
+
 def check_case(case, ctx):
+    if case.get('zero_arg'):
+        return check_zero_arg_case(case, ctx)
     from xdoctest import core
     import xdoctest
     lines, fail_line = build_module(case)
@@ -460,4 +526,5 @@ def jobs(tier):
     out = [('product#%d' % s, 'product', dict(shard=s, nshards=12, cli_every=0 if quick else 1)) for s in range(12)]
     out += [('hyp_shapes#%d' % s, 'hyp_shapes', dict(n_examples=400 if quick else 6000)) for s in range(4)]
     out += [('hyp_fuzz#%d' % s, 'hyp_fuzz', dict(n_examples=600 if quick else 10000)) for s in range(4)]
+    out += [('zero_arg', 'zero_arg', {})]
     return out
